@@ -298,13 +298,19 @@ def run_lean(lines: list[str], jobs: int = 8, timeout: int = 3600, main: str = "
     chunks = [lines[i::jobs] for i in range(jobs)]
 
     def one(chunk):
-        p = subprocess.run(["lake", "env", "lean", "--run", main], cwd=LEAN_DIR,
-                           input="\n".join(chunk) + "\n", capture_output=True, text=True, timeout=timeout)
-        outs = p.stdout.splitlines()
-        if p.returncode != 0 or len(outs) != len(chunk):
-            raise RuntimeError(f"lean driver failed rc={p.returncode} got {len(outs)}/{len(chunk)} lines: "
-                               f"{p.stderr[-800:]}")
-        return outs
+        # the driver reads .olean files while it starts: a concurrent rebuild of the model (only a
+        # developer's manual `lake build` can do that; checks serialise through the tree lock) makes it
+        # fail spuriously, so a failed start is retried before it is reported
+        last = ""
+        for attempt in range(3):
+            p = subprocess.run(["lake", "env", "lean", "--run", main], cwd=LEAN_DIR,
+                               input="\n".join(chunk) + "\n", capture_output=True, text=True, timeout=timeout)
+            outs = p.stdout.splitlines()
+            if p.returncode == 0 and len(outs) == len(chunk):
+                return outs
+            last = f"lean driver failed rc={p.returncode} got {len(outs)}/{len(chunk)} lines: {p.stderr[-800:]}"
+            time.sleep(3 * (attempt + 1))
+        raise RuntimeError(last)
 
     with ThreadPoolExecutor(jobs) as ex:
         res = list(ex.map(one, chunks))
